@@ -1492,7 +1492,7 @@ def c16(out, tier):
     out.extra["models_used"] = sorted(set(x for r in res for x in r.get("models_used", [])))
     out.assumptions += M_ASSUME[:1] + [
         "the tree builder is driven with tag tokens directly (the tokenizer's qualified-name split and duplicate-attribute check are not part of this check: C10/C15 cover the tokenizer); "
-        "path conditions under which two attributes of one tag have the same qualified name are skipped, since the tokenizer never emits such a tag",
+        "path conditions under which two *unprefixed* attributes of one tag have the same name, or one prefix is declared twice in one tag, are skipped (the tokenizer removes the former; the latter is not well-formed and the property does not say which declaration wins); a repeated *prefixed* name does reach the builder and is in scope",
         "namespace declarations (xmlns, xmlns:p) are namespace information: that the builder removes them from the attribute list is not counted as losing an attribute",
         "BTreeMap / HashSet with symbolic atom keys are modelled as association lists with solver-decided key equality; the sink is a recording model of TreeSink",
         "prefixes and URIs are one-letter atoms (equality structure is what namespace resolution depends on); multi-letter literal atoms only in the literal shapes"]
